@@ -1201,7 +1201,11 @@ static void IRP_OutProcessor(void) {
         Tmp               = FirstOutputTag;
         FirstOutputTag    = FirstOutputTag->Next;
         Tmp->Tag->IsEmpty = !Tmp->Tag->Lines;
-        if (IfAsm) {
+
+        /* nothing to iterate over (IRPC with an empty string): no expansion at all,
+           just like REPT with a count of zero */
+
+        if ((IfAsm) && (Tmp->Tag->ParCnt > 0)) {
             NextDoLst      = ApplyLstMacroExpMod(DoLst, &LstMacroExpModDefault);
             NextDoLst      = ApplyLstMacroExpMod(NextDoLst, &LstMacroExpModOverride);
             Tmp->Tag->Next = FirstInputTag;
